@@ -81,7 +81,7 @@ def properties_of(v, job, default_keys=None):
         out.add("C13")
     if rule == "cursor-moved-backward":
         out.add("C20")
-    if rule in ("window-rescanned", "region-rescanned"):
+    if rule in ("window-rescanned", "region-rescanned", "lookahead-rescanned"):
         out.add("C20")
     if rule == "no-progress-cycle":
         out.add("C20")
@@ -216,6 +216,8 @@ class Check:
                 self.violation("unanalysable:budget|%s" % job["root"], {"rule": "unanalysable:budget", "job": job, "detail": res["budget"]})
                 self.obligations += 1
             for u in res.get("unanalysable", []):
+                if job["kind"] == "scanner" and pid not in ("C01", "C12", "C13", "C20"):
+                    continue  # a scanner body outside the model: the scanner properties fail closed
                 key = "unanalysable:%s|%s|%s" % (u["what"], job["root"], strip_lines(u["where"]))
                 self.violation(key, {"rule": "unanalysable:" + u["what"], "job": job, "where": u["where"], "stack": u.get("stack"), "path": u.get("path"),
                                      "note": "construct outside the modelled fragment: the check fails closed"})
